@@ -18,7 +18,7 @@ def valid_fa_run(A, w, run, eps_moves=True):
     if not isinstance(run, list) or not run:
         return 'not a non-empty list'
     for row in run:
-        if not isinstance(row, tuple) or len(row) != 2:
+        if not isinstance(row, (tuple, list)) or len(row) != 2:
             return 'row {!r} is not a (state, unread) pair'.format(row)
     q, rem = run[0]
     if q != A.q0 or rem != w:
@@ -44,10 +44,10 @@ def valid_pda_run(P, w, run):
     if not isinstance(run, list) or not run:
         return 'not a non-empty list'
     for row in run:
-        if not isinstance(row, tuple) or len(row) != 3 or not isinstance(row[2], list):
-            return 'row {!r} is not (state, unread, stack list)'.format(row)
+        if not isinstance(row, (tuple, list)) or len(row) != 3 or not isinstance(row[2], (list, tuple)):
+            return 'row {!r} is not (state, unread, stack)'.format(row)
     q, rem, st = run[0]
-    if q != P.q0 or rem != w or st != []:
+    if q != P.q0 or rem != w or list(st) != []:
         return 'does not start in (q0, whole word, empty stack): {!r}'.format(run[0])
     for (q, rem, st), (q1, rem1, st1) in zip(run, run[1:]):
         if rem1 == rem:
